@@ -47,6 +47,36 @@ def run(run):
     if rc != 0 or not ok or stats.get("drain", 0) == 0:
         run.violation("harness-failed", {"rc": rc, "err": err, "tail": lines[-10:]}, "C14 harness or model driver failed to run", True)
         return
+    # A wall-clock verdict counts only if it is reproducible: every scenario with a failing verdict is re-run alone
+    # (nothing else running in this check) up to two more times; one clean re-run makes it a timing flake of the
+    # loaded machine, recorded in the evidence, not a violation.  Deterministic defects fail every time.
+    suspects = set()
+    for l in lines:
+        if (l.startswith("PROP\t") and " FAIL " in l) or l.startswith("DERR\t"):
+            suspects.add(l.split("\t")[1])
+    for l in mism:
+        suspects.add(l.split()[2])
+    flakes = []
+    for cid in sorted(suspects)[:40]:
+        d = details.get(cid)
+        if not d:
+            continue
+        with tempfile.NamedTemporaryFile("w", suffix=".json", delete=False) as f:
+            json.dump(d["case"], f)
+        clean = False
+        for _ in range(2):
+            rc2, lines2 = H.harness(["-family", "drain", "-case", f.name])
+            m2, _, _, _, ok2, _ = H.model(lines2)
+            if rc2 == 0 and ok2 and not m2 and not any(
+                    x.startswith("DERR") or (x.startswith("PROP") and " FAIL " in x) for x in lines2):
+                clean = True
+                break
+        os.unlink(f.name)
+        if clean:
+            flakes.append(cid)
+    if flakes:
+        lines = [l for l in lines if not (len(l.split("\t")) > 1 and l.split("\t")[1] in flakes and not l.startswith("DR\t"))]
+        mism = [l for l in mism if l.split()[2] not in flakes]
     failed_props = {}
     for l in lines:
         if l.startswith("PROP\t") and " FAIL " in l:
@@ -88,6 +118,7 @@ def run(run):
         "traces_validated_against_impl": stats.get("drain", 0),
         "exhaustive": False,
         "outcomes": outcomes,
+        "timing_flakes_not_reproduced": {"count": len(flakes), "cases": [details[c]["case"] for c in flakes[:5]]},
         "calibration": {"what": "Stop duration minus longest remaining request over nil outcomes (ms), measured in this run",
                         "data": cal[0].split("\t")[1] if cal else "", "band_ms": 40, "slack_ms": 150},
     })
